@@ -16,10 +16,11 @@
    * `FieldsAt hasEmb S start fs`: the typelib really contains the field run `fs` at `start`
      (what girnode.c writes); `nFieldCallbacks = fs.count true` (the compiler's count2 hint).
    * C09_sections_union: no union field carries an embedded callback.  g_union_info_get_field
-     has no embedded-callback loop; girparser.c accepts <callback> only inside class and record
-     fields and aborts on a union field with one (run by the harness on every check), so the
-     class of inputs excluded is empty for compiled typelibs.  `C09_sections_union_needs_plain`
-     shows the hypothesis cannot be dropped.
+     has no embedded-callback loop; girparser.c (since /repo b00e44e) stores a function pointer
+     member of a union, boxed or interface as an untyped pointer, never as an embedded CallbackBlob
+     (`union_fields_plain`, checked by the driver on every compiled typelib, unions with such members
+     included), so the class of inputs excluded is empty for compiled typelibs.
+     `C09_sections_union_needs_plain` shows the hypothesis cannot be dropped.
    * C09_attr_*: the attribute table is sorted by node offset (girmodule.c sorts it);
      `bsearch` is modelled as returning ANY index with an equal key and NULL only when none
      exists (`BsearchOk`); `C09_bsearch_ok` shows glibc's algorithm is one such choice.
